@@ -130,6 +130,8 @@ pub fn gen_c13(rng: &mut Rng, i: u64, tier: Tier) -> Script {
         let tp = rng.range(50, 3000);
         let pv = valid_stream(rng, zlib, tp, 32768, None);
         s.set("prelude", rng.range(1, 8) as i64);
+        let only_cut_or_tail = s.faults.iter().all(|f| f[0] == F_TRUNC || f[0] == F_TAIL);
+        s.set("prelude_policy", if only_cut_or_tail { rng.pick(&[0i64, 1, 2, 2, 3]) } else { rng.pick(&[0i64, 1, 3]) });
         s.set_blob("prelude_stream", pv.bytes);
     }
     s.set_blob("stream", vs.bytes);
@@ -161,6 +163,9 @@ pub fn gen_c14(rng: &mut Rng, i: u64, tier: Tier) -> Script {
         return s;
     }
     base_cfg(rng, &mut s, true);
+    if s.c("setter") != 0 && s.c("pre_reset") != 0 {
+        s.set("pre_reset", 0);
+    }
     if rng.chance(1, 20) {
         let plain = crate::props_pipe::boundary_family(rng, &mut s);
         // MZFlush values only
